@@ -358,7 +358,7 @@ Theorem reach_claims fuel x0 joker0 ta r m :
   reach sigma i fuel x0 joker0 ta r m -> claims_b (r_x r) = true.
 Proof.
   intros Cl C D H. apply NO_iff_clock_b in Cl.
-  destruct (reach_reachG sigma i Hnn JC QC no_side OKC JC_apply JC_now QC_timed QC_timed0 QC_offer offers_okc
+  destruct (reach_reachG0 sigma i Hnn JC QC no_side OKC JC_apply JC_now QC_timed QC_timed0 QC_offer offers_okc
               _ _ _ _ _ _ Cl (conj (claims_b_CLM _ C) (depk_b_DEPK _ D)) H) as [_ [_ [xq [Nq [[Cq _] [E|[_ [z E]]]]]]]]; rewrite E.
   - apply CLM_claims_b; auto.
   - exact (CLM_claims_b _ Cq).
@@ -370,7 +370,7 @@ Theorem reach_micro_claims fuel x0 joker0 ta r m a r' m' lg :
   forall tr y, In (tr, y) lg -> claims_b y = true.
 Proof.
   intros Cl C D H Hm tr y Hin. apply NO_iff_clock_b in Cl.
-  destruct (reach_micro_J sigma i Hnn JC QC no_side OKC JC_apply JC_now QC_timed QC_timed0 QC_offer offers_okc
+  destruct (reach_micro_J0 sigma i Hnn JC QC no_side OKC JC_apply JC_now QC_timed QC_timed0 QC_offer offers_okc
               _ _ _ _ _ _ _ _ _ _ Cl (conj (claims_b_CLM _ C) (depk_b_DEPK _ D)) H Hm _ _ Hin) as [[Cy _] _].
   apply CLM_claims_b; auto.
 Qed.
